@@ -66,7 +66,7 @@ impl Servers {
         let mut worst = Duration::ZERO;
         for _ in 0..3 {
             let t = Instant::now();
-            let running = start(&this, Xport::Tls, ClientPlan { requests: 0, followup: false, idle_before: Duration::ZERO, collect_after_all_sent: false });
+            let running = start(&this, Xport::Tls, ClientPlan { requests: 0, followup: false, idle_before: Duration::ZERO, collect_after_all_sent: false, big_request: None });
             if let Some(mut peer) = running.peer {
                 _ = peer.send_chunk(server_hello().as_bytes());
                 _ = wait_until(Duration::from_secs(10), || running.log.lock().unwrap().established.is_some());
@@ -92,6 +92,8 @@ pub struct ClientPlan {
     /// send every request first, then await the replies one after the other in the same task
     /// (instead of one awaiting task per request)
     pub collect_after_all_sent: bool,
+    /// Some(n): the first request carries a subtree filter of about n bytes
+    pub big_request: Option<usize>,
 }
 
 async fn drive<T>(connect: impl std::future::Future<Output = Result<Session<T>, netconf::Error>>, plan: ClientPlan, log: Arc<Mutex<ClientLog>>)
@@ -138,7 +140,8 @@ where
         }
     }
     for k in 0..if plan.collect_after_all_sent { 0 } else { plan.requests } {
-        match session.rpc::<Get, _>(|b| b.finish()).await {
+        let filter = plan.big_request.filter(|_| k == 0).map(|n| netconf::message::rpc::operation::Filter::Subtree(format!("<configuration><a>{}</a></configuration>", "x".repeat(n))));
+        match session.rpc::<Get, _>(|b| b.filter(filter).finish()).await {
             Ok(fut) => {
                 log.lock().unwrap().requests_sent += 1;
                 let log = log.clone();
@@ -303,7 +306,7 @@ const PROMPT: Duration = Duration::from_millis(1500);
 /// One segmentation case: hello delivered in chunks, then the pipelined replies in chunks.
 pub fn run_seg(servers: &Servers, case: &SegCase) -> SegOutcome {
     let mut problems = Vec::new();
-    let running = start(servers, case.xport, ClientPlan { requests: case.replies, followup: false, idle_before: Duration::ZERO, collect_after_all_sent: false });
+    let running = start(servers, case.xport, ClientPlan { requests: case.replies, followup: false, idle_before: Duration::ZERO, collect_after_all_sent: false, big_request: None });
     let Some(mut peer) = running.peer else {
         return SegOutcome { problems: vec![("machinery:no-peer".into(), "the client never reached the fake peer".into())], reads_verified: false, observed_reads: vec![] };
     };
@@ -396,7 +399,7 @@ pub fn run_seg(servers: &Servers, case: &SegCase) -> SegOutcome {
 /// Every request must reach the peer and every caller must get its own reply, without further traffic.
 pub fn run_deep(servers: &Servers, xport: Xport, n: usize) -> Vec<(String, String)> {
     let mut problems = Vec::new();
-    let running = start(servers, xport, ClientPlan { requests: n, followup: true, idle_before: Duration::ZERO, collect_after_all_sent: true });
+    let running = start(servers, xport, ClientPlan { requests: n, followup: true, idle_before: Duration::ZERO, collect_after_all_sent: true, big_request: None });
     let Some(mut peer) = running.peer else {
         return vec![("machinery:no-peer".into(), "the client never reached the fake peer".into())];
     };
@@ -649,7 +652,7 @@ pub struct CloseCase {
 
 pub fn run_close(servers: &Servers, case: &CloseCase) -> Vec<(String, String)> {
     let mut problems = Vec::new();
-    let plan = ClientPlan { requests: case.requests, followup: true, idle_before: if case.idle { Duration::from_millis(150) } else { Duration::ZERO }, collect_after_all_sent: false };
+    let plan = ClientPlan { requests: case.requests, followup: true, idle_before: if case.idle { Duration::from_millis(150) } else { Duration::ZERO }, collect_after_all_sent: false, big_request: None };
     let zero_before = peers::ZERO_READS.load(std::sync::atomic::Ordering::SeqCst);
     let cpu_before = cpu_time();
     let t0 = Instant::now();
@@ -762,6 +765,43 @@ pub fn run_close(servers: &Servers, case: &CloseCase) -> Vec<(String, String)> {
     problems
 }
 
+/// SSH only: a request larger than the peer's channel window; the peer hangs up while the rest of it waits.
+pub fn run_window_hangup(servers: &Servers, request_bytes: usize) -> Vec<(String, String)> {
+    let mut problems = Vec::new();
+    servers.ssh.drain();
+    let log: Arc<Mutex<ClientLog>> = Arc::default();
+    let (l2, port) = (log.clone(), servers.ssh.port);
+    let plan = ClientPlan { requests: 1, followup: true, idle_before: Duration::ZERO, collect_after_all_sent: false, big_request: Some(request_bytes) };
+    let task = servers.rt.spawn(async move {
+        let password: Password = SSH_PASSWORD.parse().unwrap();
+        drive(Session::ssh(("127.0.0.1", port), "netconf".to_string(), password), plan, l2).await;
+    });
+    let Some(mut peer) = servers.ssh.accept_full(Duration::from_secs(5), Some(SSH_PASSWORD.to_string()), false, None, Some(4096)).filter(|p| p.established) else {
+        return vec![("machinery:no-peer".into(), "the client never reached the small-window SSH peer".into())];
+    };
+    _ = peer.send_chunk(server_hello().as_bytes());
+    let cpu_before = cpu_time();
+    let watch = servers.prompt.max(Duration::from_secs(3));
+    let started = Instant::now();
+    let done = wait_until(watch, || log.lock().unwrap().done);
+    let burned = cpu_time().saturating_sub(cpu_before);
+    if !done {
+        let l = log.lock().unwrap();
+        problems.push(("hang".into(), format!("pending / subsequent operations did not resolve within {watch:?} (established: {:?}, requests sent: {}, results: {:?})", l.established, l.requests_sent, l.results.iter().map(Option::is_some).collect::<Vec<_>>())));
+        if burned > started.elapsed() / 2 {
+            problems.push(("busy-loop".into(), format!("{burned:?} of CPU time in {:?} of waiting", started.elapsed())));
+        }
+    } else {
+        let l = log.lock().unwrap();
+        if l.results.iter().any(|r| matches!(r, Some((Ok(_), _)))) || matches!(l.extra, Some(Ok(_))) {
+            problems.push(("result-from-closed-connection".into(), "a request resolved to Ok although the peer hung up without answering".into()));
+        }
+    }
+    peer.close(CloseKind::Abort);
+    task.abort();
+    problems
+}
+
 fn cpu_time() -> Duration {
     // SAFETY: plain getrusage call
     unsafe {
@@ -840,6 +880,24 @@ pub fn run_c07(report: &mut Report) {
             report.violation(&format!("C07:{class}:{:?}:{:?}:{point}", case.xport, case.kind), &format!("{:?}, {:?} close, {}: {what}", case.xport, case.kind, case.desc), json!({"transport": format!("{:?}", case.xport), "close_kind": format!("{:?}", case.kind), "case": case.desc}));
         }
     }
+    // SSH flow control: the peer's channel window (2 KiB) is smaller than the request, and the peer hangs up
+    // (EOF + CLOSE) while the client is waiting for a window adjustment
+    if stuck_runtimes < 10 {
+        for size in [16_384usize, 200_000] {
+            evaluations += 1;
+            _ = distinct.insert(format!("Ssh|window|{size}"));
+            let problems = run_window_hangup(&servers, size);
+            if !problems.is_empty() {
+                servers.reset_runtime();
+            }
+            for (class, what) in problems {
+                if class.starts_with("machinery") {
+                    panic!("machinery failure in the window hang-up case: {what}");
+                }
+                report.violation(&format!("C07:{class}:Ssh:hang-up-while-request-waits-for-window"), &format!("Ssh, request of {size} bytes against a 2 KiB channel window, peer hangs up (EOF + CLOSE) while it is being sent: {what}"), json!({"transport": "Ssh", "request_bytes": size, "peer_window": 2048}));
+            }
+        }
+    }
     report.set("evaluations", evaluations);
     report.set("distinct_nontrivial", distinct.len() as u64);
     report.set("exhaustive", stuck_runtimes < 10);
@@ -856,7 +914,7 @@ pub fn run_framing(report: &mut Report) -> u64 {
     for xport in [Xport::Tls, Xport::Local, Xport::Ssh] {
         for caps in [vec![CAP_BASE_1_0, crate::mem::CAP_BASE_1_1, CAP_JUNOS], vec![crate::mem::CAP_BASE_1_1, CAP_JUNOS], vec![CAP_BASE_1_0]] {
             n += 1;
-            let running = start(&servers, xport, ClientPlan { requests: 1, followup: false, idle_before: Duration::ZERO, collect_after_all_sent: false });
+            let running = start(&servers, xport, ClientPlan { requests: 1, followup: false, idle_before: Duration::ZERO, collect_after_all_sent: false, big_request: None });
             let Some(mut peer) = running.peer else { panic!("machinery failure: no peer on {xport:?}") };
             _ = peer.send_chunk(hello_msg(&caps, "77").as_bytes());
             let client_hello = peer.read_message(Duration::from_secs(3)).unwrap_or_default();
